@@ -34,7 +34,9 @@ RULE = ("a history is a random sequence (quick: 4..400 ops) of FormulaManager co
         "Environments: typed pools guarantee well-sorted arguments; 30% of the ops re-build an earlier "
         "result along another route (other spelling of constants, GE for LE, list/var-args, replay of the "
         "whole DAG in another order); all 66 node types, every numeric spelling (int/bool/float/Fraction/"
-        "pair/str), normalize between all pairs of environments incl. an environment and itself, interleaved.  A history is non-trivial when at least one call "
+        "pair/str, floats of extreme magnitude), confusable sorts (declared sorts printing like built-ins), the "
+        "pysmt.shortcuts and FNode operator/method routes to the constructors, lazy iterables, ill-sorted one-node calls, "
+        "normalize between all pairs of environments incl. an environment and itself (also through the shortcuts), interleaved.  A history is non-trivial when at least one call "
         "returned an already existing object and at least one normalisation fired; the key is the "
         "multiset of op names plus the identity partition.")
 ASSUMPTIONS = [
@@ -503,8 +505,11 @@ def sp_wire(sp):
 
 
 def is_dyadic(q):
-    d = q.denominator
-    return d & (d - 1) == 0 and abs(q.numerator) < 2 ** 53 and d < 2 ** 60
+    """is q exactly a Python float (normal, subnormal, huge or tiny)?"""
+    try:
+        return Fraction(q.numerator / q.denominator) == q
+    except (OverflowError, ZeroDivisionError):
+        return False
 
 
 def real_spellings(q, rng):
@@ -614,6 +619,84 @@ class ViaShortcuts(object):
         return call
 
 
+class patched_infix(object):
+    """the infix / method layer of FNode works on the global environment (`fnode._env/_mgr`);
+    here it is pointed to `env` without pushing it (the default global environment has infix
+    notation enabled, which is all `assert_infix_enabled` looks at)"""
+    def __init__(self, env):
+        self.env = env
+
+    def __enter__(self):
+        import pysmt.fnode as fn
+        import pysmt.environment as pe
+        self.fn, self.old = fn, (fn._env, fn._mgr)
+        # only the manager the operators build in is redirected; `_env()` (type checker and
+        # serializer used by get_type() / error messages) stays the global one: printing an
+        # array value registers its array type in the PRINTER's TypeManager
+        # (printers.py:284), which must not land in the compared environment
+        fn._mgr = lambda: self.env.formula_manager
+        self.flag = pe.get_env().enable_infix_notation
+        pe.get_env().enable_infix_notation = True
+
+    def __exit__(self, *a):
+        import pysmt.environment as pe
+        self.fn._env, self.fn._mgr = self.old
+        pe.get_env().enable_infix_notation = self.flag
+
+
+INFIX2 = {"Plus": "__add__", "Minus": "__sub__", "Times": "__mul__", "Div": "__truediv__", "GT": "__gt__", "GE": "__ge__",
+          "LT": "__lt__", "LE": "__le__", "And": "__and__", "Or": "__or__", "Xor": "__xor__",
+          "BVAdd": "__add__", "BVSub": "__sub__", "BVMul": "__mul__", "BVUDiv": "__truediv__", "BVUGT": "__gt__",
+          "BVUGE": "__ge__", "BVULT": "__lt__", "BVULE": "__le__", "BVAnd": "__and__", "BVOr": "__or__",
+          "BVXor": "__xor__", "BVLShl": "__lshift__", "BVLShr": "__rshift__", "BVURem": "__mod__",
+          "Implies": "Implies", "Iff": "Iff", "Equals": "Equals", "NotEquals": "NotEquals",
+          "BVSLT": "BVSLT", "BVSLE": "BVSLE", "BVSGT": "BVSGT", "BVSGE": "BVSGE", "BVComp": "BVComp",
+          "BVSDiv": "BVSDiv", "BVSRem": "BVSRem", "BVAShr": "BVAShr", "BVNand": "BVNand", "BVNor": "BVNor",
+          "BVXnor": "BVXnor", "BVConcat": "BVConcat"}
+INFIX1 = {"Not": "__invert__", "BVNot": "__invert__", "BVNeg": "__neg__"}
+
+
+class ViaInfix(object):
+    """manager look-alike that takes the operator / method route of FNode where the call has
+    one: `a + b`, `a <= b`, `~a`, `a.Implies(b)`, `x[i:j]`, `x[i]`, `x.BVRol(n)`, `c.Ite(a, b)`"""
+    def __init__(self, mgr, env, rng):
+        self._mgr, self._env, self._rng = mgr, env, rng
+
+    def __getattr__(self, name):
+        from pysmt.fnode import FNode
+        real = getattr(self._mgr, name)
+        env, rng = self._env, self._rng
+
+        def call(*a, **k):
+            if k or not a or not all(isinstance(x, FNode) or type(x) is int or x is None for x in a):
+                return real(*a, **k)
+            nodes = [x for x in a if isinstance(x, FNode)]
+            with patched_infix(env):
+                if name in INFIX2 and len(a) == 2 and len(nodes) == 2:
+                    return getattr(a[0], INFIX2[name])(a[1])
+                if name in INFIX1 and len(a) == 1:
+                    return getattr(a[0], INFIX1[name])()
+                if name == "Ite" and len(nodes) == 3:
+                    return a[0].Ite(a[1], a[2])
+                if name in ("BVRol", "BVRor", "BVZExt", "BVSExt", "BVRepeat") and len(a) == 2 and type(a[1]) is int:
+                    return getattr(a[0], name)(a[1])
+                if name == "BVExtract" and isinstance(a[0], FNode):
+                    x = a[0]
+                    start = a[1] if len(a) > 1 else 0
+                    end = a[2] if len(a) > 2 else None
+                    if type(start) is int and (end is None or type(end) is int):
+                        forms = [slice(start, end)]
+                        if start == 0:
+                            forms.append(slice(None, end))
+                        if end is not None and start == end:
+                            forms.append(start)
+                        if end is not None:
+                            forms.append(slice(start, end, 1))
+                        return x[rng.choice(forms)]
+            return real(*a, **k)
+        return call
+
+
 class Recorder(object):
     """stands in for env.factory: records what the shortcuts hand to the solver layer"""
     def __init__(self):
@@ -650,17 +733,31 @@ U = ("C", "U", ())
 PAIR_II = ("C", "Pair", (("I",), ("I",)))
 BOX_PAIR = ("C", "Box", (PAIR_II,))
 BOX_U = ("C", "Box", (U,))
+# declared sorts whose PRINTED name is that of a built-in sort or of a generated instance
+C_INT = ("C", "Int", ())
+C_PAIR = ("C", "Pair{Int, Int}", ())
+C_ARR = ("C", "Array{Int, Int}", ())
+C_BV8 = ("C", "BV{8}", ())
+C_BOOL = ("C", "Bool", ())
+CONFUSABLE = [("I",), C_INT, PAIR_II, C_PAIR, ("A", ("I",), ("I",)), C_ARR, ("V", 8), C_BV8, ("B",), C_BOOL]
 BASE_TYPES = [("B",), ("I",), ("R",), ("S",), ("V", 1), ("V", 2), ("V", 3), ("V", 4), ("V", 8), ("V", 12), U,
-              PAIR_II, BOX_PAIR, BOX_U]
+              PAIR_II, BOX_PAIR, BOX_U, C_INT, C_PAIR, C_ARR, C_BV8]
 ARRAY_TYPES = [("A", ("I",), ("I",)), ("A", ("V", 2), ("V", 4)), ("A", ("I",), ("B",)), ("A", ("I",), ("R",)),
-               ("A", ("V", 2), ("A", ("I",), ("I",))), ("A", U, ("I",)), ("A", ("S",), BOX_PAIR)]
+               ("A", ("V", 2), ("A", ("I",), ("I",))), ("A", U, ("I",)), ("A", ("S",), BOX_PAIR),
+               ("A", C_INT, ("I",)), ("A", ("I",), C_INT), ("A", C_PAIR, PAIR_II)]
 FUN_TYPES = [("F", ("B",), (("I",),)), ("F", ("I",), (("I",), ("I",))), ("F", U, (U,)), ("F", PAIR_II, (U, ("I",))),
              ("F", ("V", 4), (("V", 4), ("B",))), ("F", ("R",), (BOX_PAIR,)), ("F", ("A", ("I",), ("I",)), (("I",),)),
-             ("F", BOX_PAIR, (PAIR_II,)), ("F", ("S",), (("S",), ("R",)))]
+             ("F", BOX_PAIR, (PAIR_II,)), ("F", ("S",), (("S",), ("R",))),
+             ("F", ("I",), (C_INT,)), ("F", C_INT, (("I",),)), ("F", ("B",), (C_PAIR,)), ("F", ("B",), (PAIR_II,)),
+             ("F", C_ARR, (("A", ("I",), ("I",)),))]
 STRINGS = ["", "a", "ab", "abc", "0", "-3", "\"q\"", "a b", "é中", "x|y", "\\n"]
 INTS = [0, 1, -1, 2, 3, -3, 5, 7, 10, 255, 2 ** 70, -(2 ** 64)]
 RATS = [Fraction(0), Fraction(1), Fraction(-1), Fraction(1, 2), Fraction(-1, 2), Fraction(3, 2), Fraction(2), Fraction(1, 3),
-        Fraction(-7, 3), Fraction(5, 4), Fraction(1, 10), Fraction(0.1), Fraction(3), Fraction(2 ** 70, 3), Fraction(1, 1024)]
+        Fraction(-7, 3), Fraction(5, 4), Fraction(1, 10), Fraction(0.1), Fraction(3), Fraction(2 ** 70, 3), Fraction(1, 1024),
+        # floats of extreme magnitude: tiny, subnormal, huge, next to 1, 0.1-like
+        Fraction(2.0 ** -70), Fraction(1e-100), Fraction(5e-324), Fraction(-2.0 ** -1074), Fraction(1e300),
+        Fraction(1.7976931348623157e308), Fraction(1.0 + 2.0 ** -52), Fraction(0.3), Fraction(-1e-7), Fraction(2.0 ** 64),
+        Fraction(1, 2 ** 80), Fraction(123456789, 2 ** 64 + 1)]
 
 
 class History(object):
@@ -745,8 +842,11 @@ class History(object):
 
     def emit(self, e, name, wire, pyc, bluec, recipe=None):
         mgr = self.mgr[e]
-        if self.rng.random() < 0.08:
+        route = self.rng.random()
+        if route < 0.08:
             mgr = ViaShortcuts(mgr, self.envs[e])       # the same call through pysmt.shortcuts
+        elif route < 0.2:
+            mgr = ViaInfix(mgr, self.envs[e], self.rng)  # ... through the operators / methods of FNode
         try:
             obj = pyc(mgr)
             out = None
@@ -1815,8 +1915,16 @@ class History(object):
         if r < 0.35:
             t = self.anytype()
             return self.leaf(e, t)
-        if r < 0.55:    # shared names, clashing types
+        if r < 0.5:     # shared names, clashing types
             return self.build(e, "Symbol", rng.choice(["c0", "c1", "FV1", "FV3", "a0b", ""]), rng.choice(BASE_TYPES[:6]))
+        if r < 0.62:    # the same name over sorts that PRINT alike but are different declarations
+            t = rng.choice(CONFUSABLE)
+            k = rng.randrange(3)
+            if k == 1:
+                t = ("A", t, rng.choice(CONFUSABLE)) if t[0] != "A" else t
+            elif k == 2:
+                t = ("F", rng.choice(CONFUSABLE), (t,))
+            return self.build(e, "Symbol", rng.choice(["k0", "k1"]), t)
         if r < 0.85:
             pre, post = rng.choice([("FV", ""), ("FV", ""), ("a", "b"), ("", "")])
             return self.build(e, "Fresh", self.anytype(), pre, post)
